@@ -240,6 +240,23 @@ let driver_main () =
      | _ -> failwith ("bad line: " ^ line)); flush stdout
   done with End_of_file -> ())
 
+(* ---------------- lexer (C18 / C19) ---------------- *)
+(* lex <file>: one token per line "kind at_bol has_space hex", or LEXERR *)
+let lex_main file =
+  let ic = open_in_bin file in
+  let n = in_channel_length ic in
+  let s = really_input_string ic n in close_in ic;
+  let bytes = List.init n (fun i -> n_of_int (Char.code s.[i])) in
+  (match tokenize punct_table bytes with
+   | LexErr -> print_endline "LEXERR"
+   | LexOk l -> List.iter (fun t ->
+       let k = (match t.t_kind with LIdent -> 0 | LPunct -> 1 | LNum -> 5 | LStr -> 3 | LChr -> 4) in
+       Printf.printf "%d %d %d %s\n" k (if t.t_bol then 1 else 0) (if t.t_space then 1 else 0) (hex_of_bytes t.t_text)) l)
+
+(* the punctuator pairs that fuse when printed adjacent (from the proved sweep) *)
+let fusing_main () =
+  List.iter (fun (a, b) -> Printf.printf "%s %s\n" (hex_of_bytes a) (hex_of_bytes b)) fusing_pairs
+
 (* ---------------- layout / declspec ---------------- *)
 (* stdin: "S|U <packed 0|1> <align0> <size align bf named>*"  (bf = -1 for an ordinary member)
    stdout: "<size> <align> <off:bit>*" *)
@@ -290,6 +307,8 @@ let () =
   | [_; "codegen"] -> codegen_main ()
   | [_; "abi"] -> abi_main ()
   | [_; "driver"] -> driver_main ()
+  | [_; "lex"; f] -> lex_main f
+  | [_; "fusing"] -> fusing_main ()
   | [_; "layout"] -> layout_main ()
   | [_; "declspec-spec"] -> declspec_main ()
   | [_; "declspec-run"] -> declspec_run_main ()
